@@ -1409,3 +1409,73 @@ mod tests {
         check_output!(resampler);
     }
 }
+
+#[cfg(rubato_verif)]
+impl<T> SincFixedIn<T>
+where
+    T: Sample,
+{
+    /// Snapshot of the internal state, for verification harnesses.
+    pub fn verif_state(&self) -> crate::verif::State {
+        let (data_hash, data_len, data_shape) = crate::verif::hash_channels(&[&self.buffer]);
+        crate::verif::State {
+            kind: "SincFixedIn",
+            scalars: vec![
+                ("nbr_channels", self.nbr_channels as u64),
+                ("chunk_size", self.chunk_size as u64),
+                ("max_chunk_size", self.max_chunk_size as u64),
+                ("last_index", self.last_index.to_bits()),
+                ("resample_ratio", self.resample_ratio.to_bits()),
+                (
+                    "resample_ratio_original",
+                    self.resample_ratio_original.to_bits(),
+                ),
+                ("target_ratio", self.target_ratio.to_bits()),
+                ("max_relative_ratio", self.max_relative_ratio.to_bits()),
+                ("sinc_len", self.interpolator.len() as u64),
+                ("nbr_sincs", self.interpolator.nbr_sincs() as u64),
+            ],
+            mask: self.channel_mask.clone(),
+            data_hash,
+            data_len,
+            data_shape,
+            scratch_hash: 0,
+        }
+    }
+}
+
+#[cfg(rubato_verif)]
+impl<T> SincFixedOut<T>
+where
+    T: Sample,
+{
+    /// Snapshot of the internal state, for verification harnesses.
+    pub fn verif_state(&self) -> crate::verif::State {
+        let (data_hash, data_len, data_shape) = crate::verif::hash_channels(&[&self.buffer]);
+        crate::verif::State {
+            kind: "SincFixedOut",
+            scalars: vec![
+                ("nbr_channels", self.nbr_channels as u64),
+                ("chunk_size", self.chunk_size as u64),
+                ("max_chunk_size", self.max_chunk_size as u64),
+                ("needed_input_size", self.needed_input_size as u64),
+                ("last_index", self.last_index.to_bits()),
+                ("current_buffer_fill", self.current_buffer_fill as u64),
+                ("resample_ratio", self.resample_ratio.to_bits()),
+                (
+                    "resample_ratio_original",
+                    self.resample_ratio_original.to_bits(),
+                ),
+                ("target_ratio", self.target_ratio.to_bits()),
+                ("max_relative_ratio", self.max_relative_ratio.to_bits()),
+                ("sinc_len", self.interpolator.len() as u64),
+                ("nbr_sincs", self.interpolator.nbr_sincs() as u64),
+            ],
+            mask: self.channel_mask.clone(),
+            data_hash,
+            data_len,
+            data_shape,
+            scratch_hash: 0,
+        }
+    }
+}
